@@ -8,10 +8,22 @@ from concurrent.futures import ThreadPoolExecutor
 
 VERIF = os.path.dirname(os.path.dirname(os.path.dirname(os.path.abspath(__file__))))
 REPO = os.environ.get("OFXV_REPO", "/repo")
-COQ = os.path.join(VERIF, "coq")
-THEORIES = os.path.join(COQ, "theories")
 BUILD = os.path.join(VERIF, "build")
-EVIDENCE = os.path.join(VERIF, "evidence")
+COQ = os.path.join(VERIF, "coq")
+if REPO != "/repo":
+    # checks pointed at a scratch copy of the repository (seeded changes, workers' repairs) regenerate Gen/*.v from THAT copy:
+    # give them their own build tree so that they never disturb the tree built from /repo
+    _alt = os.path.join(BUILD, "alt", hashlib.sha1(REPO.encode()).hexdigest()[:10], "coq")
+    if not os.path.isdir(_alt):
+        os.makedirs(os.path.dirname(_alt), exist_ok=True)
+        subprocess.run(["cp", "-a", COQ, _alt], check=True)
+    else:   # pick up edited sources (newer files only), keep the alternative tree's own Gen
+        subprocess.run(["rsync", "-a", "--update", "--exclude", "theories/Gen/", "--exclude", "*.vo", "--exclude", "*.vos", "--exclude", "*.vok",
+                        "--exclude", "*.glob", "--exclude", ".*.aux", COQ + "/", _alt + "/"], check=False)
+    COQ = _alt
+THEORIES = os.path.join(COQ, "theories")
+WORK = BUILD if REPO == "/repo" else os.path.dirname(COQ)     # case files, obligation outputs, replays
+EVIDENCE = os.path.join(VERIF, "evidence") if REPO == "/repo" else os.path.join(WORK, "evidence")
 PY = "/venv/bin/python"
 COQFLAGS = ["-Q", "theories", "OfxV", "-w",
             "-notation-overridden,-deprecated-hint-without-locality,-deprecated-instance-without-locality,-abstract-large-number"]
@@ -35,7 +47,7 @@ def sh(cmd, timeout=1800, cwd=None, env=None):
 @contextlib.contextmanager
 def build_lock():
     os.makedirs(BUILD, exist_ok=True)
-    with open(os.path.join(BUILD, ".lock"), "w") as f:
+    with open(os.path.join(os.path.dirname(COQ), ".lock") if REPO != "/repo" else os.path.join(BUILD, ".lock"), "w") as f:
         fcntl.flock(f, fcntl.LOCK_EX)
         try:
             yield
@@ -159,10 +171,10 @@ def compile_obligations(prop, extra=()):
     files = sorted(glob.glob(os.path.join(THEORIES, "Props", prop, "*.v")))
     rel_vo = [os.path.relpath(f, COQ) + "o" for f in files]
     rc, out = make(rel_vo + list(extra))
-    logdir = os.path.join(BUILD, "log"); os.makedirs(logdir, exist_ok=True)
+    logdir = os.path.join(WORK, "log"); os.makedirs(logdir, exist_ok=True)
     with open(os.path.join(logdir, prop + ".make.log"), "w") as f:
         f.write(out)
-    outdir = os.path.join(BUILD, "props", prop); os.makedirs(outdir, exist_ok=True)
+    outdir = os.path.join(WORK, "props", prop); os.makedirs(outdir, exist_ok=True)
 
     def one(f):
         name = os.path.splitext(os.path.basename(f))[0]
@@ -196,7 +208,7 @@ def coq_bad_indices(prop, name, imports, ok_fun, case_type, items, shard=400, pr
     (each holding the input and what the IMPLEMENTATION answered); `ok_fun : case_type -> bool` runs the
     model on the input and compares.  Returns the sorted list of indices on which model and implementation
     differ.  One file per shard, `Eval vm_compute in bad_indices ok cases`, run under xargs-like parallelism."""
-    d = os.path.join(BUILD, "cases", prop, name)
+    d = os.path.join(WORK, "cases", prop, name)
     shutil.rmtree(d, ignore_errors=True)
     os.makedirs(d)
     shards = [items[i:i + shard] for i in range(0, len(items), shard)]
@@ -238,6 +250,11 @@ def coq_bad_indices(prop, name, imports, ok_fun, case_type, items, shard=400, pr
                 errors.append("shard %d: %s" % (k, out[-1500:]))
             else:
                 bad.extend(k * shard + i for i in idx)
+    for junk in glob.glob(os.path.join(d, "*.vo*")) + glob.glob(os.path.join(d, "*.glob")) + glob.glob(os.path.join(d, ".*.aux")):
+        try:
+            os.remove(junk)
+        except OSError:
+            pass
     if errors:
         raise RuntimeError("case evaluation failed in Coq (%s/%s):\n%s" % (prop, name, "\n".join(errors[:3])))
     return sorted(bad)
@@ -245,7 +262,7 @@ def coq_bad_indices(prop, name, imports, ok_fun, case_type, items, shard=400, pr
 
 def coq_eval(prop, name, imports, term, prelude="", timeout=300):
     """evaluate one closed term with vm_compute and return Coq's printed answer (for replay files)."""
-    d = os.path.join(BUILD, "cases", prop); os.makedirs(d, exist_ok=True)
+    d = os.path.join(WORK, "cases", prop); os.makedirs(d, exist_ok=True)
     p = os.path.join(d, "eval_%s.v" % name)
     with open(p, "w") as f:
         f.write("From OfxV Require Import Base.Prelude.\n")
@@ -304,7 +321,7 @@ class Report:
 
 
 def write_replay(prop, name, obj):
-    d = os.path.join(BUILD, "replay"); os.makedirs(d, exist_ok=True)
+    d = os.path.join(WORK, "replay"); os.makedirs(d, exist_ok=True)
     h = hashlib.sha1(json.dumps(obj, sort_keys=True, default=str).encode()).hexdigest()[:10]
     p = os.path.join(d, "%s-%s-%s.json" % (prop, name, h))
     with open(p, "w") as f:
